@@ -1,4 +1,5 @@
 import Pog.Lemmas.ParserSpec
+import Pog.Props.Resolve
 import Pog.Lemmas.Parser
 import Pog.Lemmas.ParserFaithful
 /-
@@ -41,6 +42,14 @@ import Pog.Lemmas.ParserFaithful
   heuristics only fire on a detected cycle); what IS needed is class-cased names (else the registry key
   differs from the name the tracker knows, and every second reference re-parses the schema).
 -/
+/-
+  C02 at the annotation level (schema type resolver, Pog/Model/Resolve.lean; proved in Pog/Props/Resolve.lean, claimed here):
+    resolve_optional_iff_not_required      the resolved type is optional exactly when the property is not required - through registry
+                                           fallbacks, allOf and every leaf
+    union_members_nodup_and_cover          anyOf/oneOf: one member -> that member; otherwise Union of the members' types, each part
+                                           represented, no duplicates, first-occurrence document order (no unordered container)
+-/
+-- INDEX Pog.ResolveProps: resolve_optional_iff_not_required, union_members_nodup_and_cover, dispatch_union
 namespace Pog.C02
 open Pog Pog.Prs Pog.Trk
 
